@@ -261,12 +261,14 @@ fn main() {
             let mut rng2 = rng::Rng::new(o.seed);
             let many: Vec<rs::RsCase> = streams::cache_cases(&mut rng2, false).into_iter().filter(|c| c.tag.starts_with("many-") || c.tag.starts_with("large-args") || c.tag == "failpattern").collect();
             run_rs_stream(&o, &mut rep, "many-calls", "40 / 200 / 1000 distinct arguments of one cacheable function called twice in opposite orders (one rule, and one call per rule over 400 rules); large arguments of equal length differing at one position; every subset of failing invocations of cacheable and non-cacheable functions called with equal arguments from different rules (a rule's outcome is what the rule gives when it is its turn, whatever failed before)", false, many, "full");
+            run_rs_stream(&o, &mut rep, "cells-as-rules", "every operator over the extremes of every type (all ordered pairs of ~50 values, mixed types included: an i128 beyond 96 bits next to a decimal, an instant next to the largest span …), 40 such rules per ruleset between two succeeding rules: a failing rule yields its own error outcome and the other 41 outcomes are unchanged", true, streams::cells_as_rules_cases(), "full");
             serval::run_evaluate(&mut rep, &o.driver, o.workers, o.tier == "thorough", o.seed);
         }
         "C10" => {
             let big: Vec<rs::RsCase> = streams::chain_cases().into_iter().filter(|c| c.tag.starts_with("list") || c.tag.starts_with("map") || c.tag.starts_with("path")).collect();
             run_rs_stream(&o, &mut rep, "large-data", "lists and maps of 10 / 33 / 40 / 70 / 150 items built and indexed at the last and past-the-last position, key lookup in them, access paths of up to 60 alternating field / index steps into nested data and one step further", false, big, "full");
             run_rs_stream(&o, &mut rep, "long-names", "references, symbols, functions, field steps and map keys whose names are 30 … 4094 bytes of 2- / 3- / 4-byte characters at every alignment, resolving and (one character longer) not resolving", false, streams::long_name_cases(), "full");
+            syntax::run_c10_names(&mut rep, &o.driver, o.workers);
             let mut rng = rng::Rng::new(o.seed);
             let cases = streams::resolve_cases(&mut rng, o.tier == "thorough");
             run_rs_stream(&o, &mut rep, "paths", "7 inputs (nested maps/lists with near-miss keys: case variants, prefixes, the key `facts`, the empty key, top-level keys that contain a dot next to the data a path of that spelling reaches; non-map; None) x 20 bases (references, `facts`, symbols, unknown names, names containing a dot — also built through Expr::reff / Expr::symbol) x every access path of length <= 2 (thorough 3) over 11 steps (present/absent keys, indices len-1/len/len+1, wrong step kind) x symbol tables with re-registration; random longer paths", false, cases, "full");
